@@ -294,3 +294,30 @@ def site_doc(rng: random.Random, n=22, version="3.1.0"):
         else:
             paths[f"/o{i}"] = {"get": {"operationId": f"op{i}", "responses": {"200": {"description": "ok", "content": {"application/json": {"schema": s}}}}}}
     return {"openapi": version, "info": {"title": "t", "version": "1"}, "paths": paths, "components": {"schemas": comps}}
+
+
+DEFAULTED = ["Colour", "Currency", "Count", "Flag", "Blank", "Level", "When", "NColour", "E", "S"]
+
+
+def refdefaults_doc(rng: random.Random, wrapped=None):
+    """Referenced component schemas that carry their OWN default / description / example (truthy and falsy), used through a bare
+    $ref (or, for the names in `wrapped`, already through a wrapper) at attribute, items, additionalProperties, union-member,
+    parameter, body and response positions."""
+    wrapped = wrapped or set()
+    comps = copy.deepcopy(NG.BASE)
+    use = lambda n: ({rng.choice(["allOf", "oneOf", "anyOf"]): [{"$ref": REF + n}]} if n in wrapped else {"$ref": REF + n})
+    names = list(DEFAULTED)
+    rng.shuffle(names)
+    comps["Order"] = {"type": "object", "required": ["id"],
+                      "properties": {"id": {"type": "integer"}, **{n.lower(): use(n) for n in names},
+                                     "tags": {"type": "array", "items": use(names[0])},
+                                     "either": {"anyOf": [use(names[1]), {"type": "array", "items": {"type": "integer"}}]}},
+                      "additionalProperties": use(names[2])}
+    comps["Req"] = {"type": "object", "required": [n.lower() for n in names[:4]], "properties": {n.lower(): use(n) for n in names[:4]}}
+    paths = {}
+    for i, n in enumerate(names):
+        paths[f"/q{i}"] = {"get": {"operationId": f"q{i}", "parameters": [{"name": n.lower(), "in": "query", "schema": use(n)},
+                                                                         {"name": "h" + n.lower(), "in": "header", "required": i % 2 == 0, "schema": use(names[(i + 1) % len(names)])}],
+                                   "responses": {"200": {"description": "ok", "content": {"application/json": {"schema": use(names[(i + 2) % len(names)])}}}}}}
+        paths[f"/b{i}"] = {"post": {"operationId": f"b{i}", "requestBody": {"content": {"application/json": {"schema": use(n)}}}, "responses": {"200": {"description": "ok"}}}}
+    return {"openapi": "3.1.0", "info": {"title": "t", "version": "1"}, "paths": paths, "components": {"schemas": comps}}
